@@ -201,11 +201,21 @@ impl RandState<'_> {
             }
             TypeInner::Vec(t) => {
                 self.0.update_stats("width");
-                let width = self.0.config.width.or_else(|| {
-                    let elem_size = size(self.0.env, t).unwrap_or(MAX_DEPTH);
+                let width = if self.0.config.depth.is_some_and(|d| d <= 0)
+                    || self.0.config.size.is_some_and(|s| s <= 0)
+                {
+                    // budget spent: like `opt`, a vector stops here, otherwise `type T = vec T`
+                    // nests for as long as there is entropy
+                    self.0.update_stats("depth");
                     self.0.update_stats("size");
-                    Some(std::cmp::max(0, self.0.config.size.unwrap_or(0)) as usize / elem_size)
-                });
+                    Some(0)
+                } else {
+                    self.0.config.width.or_else(|| {
+                        let elem_size = size(self.0.env, t).unwrap_or(MAX_DEPTH);
+                        self.0.update_stats("size");
+                        Some(std::cmp::max(0, self.0.config.size.unwrap_or(0)) as usize / elem_size)
+                    })
+                };
                 let len = arbitrary_len(u, width)?;
                 let mut vec = Vec::with_capacity(len);
                 for _ in 0..len {
